@@ -1084,9 +1084,10 @@ expand_manifests(string &expr, bool expand_undefined,
       else if (expand_undefined && ident == "__has_include") {
         expand_has_include_function(expr, q, p);
       }
-      else if (ident == "L" && p < expr.size() && (expr[p] == '\'' || expr[p] == '\"')) {
-        // Special exception for the wide string literal suffix, which is
-        // never expanded.
+      else if ((ident == "L" || ident == "u" || ident == "U" || ident == "u8") &&
+               p < expr.size() && (expr[p] == '\'' || expr[p] == '\"')) {
+        // Special exception for the encoding prefix of a character or
+        // string literal, which is never expanded.
       }
       else {
         // Is it a manifest?
